@@ -142,6 +142,23 @@ let dispatch cmd a =
   | "resolve" -> let out r = res (fun (n, l) -> string_of_z n ^ " " ^ string_of_z l) r in
                  out (gen_record_summary (zi 0) (ebs_of_tok a.(1)) (a.(2) = "T") (zi 3)) ^ " / " ^
                  out (spec_record_summary (zi 0) (ebs_of_tok a.(1)) (a.(2) = "T") (zi 3))
+  (* dec_at <format> <descriptors> <offset_to_point_data> <record length> <number of records> <file>: the specification's
+     decoder on a file, record i cut out at offset + i * record length (Model/RecordPlace.v) *)
+  | "dec_at" -> let f = zi 0 and ebs = ebs_of_tok a.(1) and t = trail_of_tok a.(1) in
+                (match spec_dec_records f ebs t (bytes_of_tok a.(5)) (zi 2) (zi 3) (zi 4) with
+                 | Ok recs -> "ok " ^ (if recs = [] then "-" else Stdlib.String.concat ";" (List.map tok_of_zlist recs))
+                 | Err e -> "err " ^ err_name e)
+  (* append <offset> <count> <record length> <minor> <number_of_evlrs> <start_of_first_evlr> <file> <chunk;chunk;...>: the file after
+     LasAppender.__init__ and one append_points call per chunk (x<hex> of whole records, x = no record) *)
+  | "append" -> let ps = int_of_z (zi 2) in
+                if ps <= 0 then "err EValue" else
+                let chunks = List.map (fun c -> chunk ps (bytes_of_tok c)) (split_on ';' a.(7)) in
+                tok_of_bytes (append_session (bytes_of_tok a.(6)) (zi 0) (zi 1) (zi 2) (zi 3) (zi 4) (zi 5) chunks)
+  (* edits <offset> <record length> <file> <i:x<record>;...>: records replaced in place, one after the other *)
+  | "edits" -> let file = List.fold_left (fun file e -> match Stdlib.String.split_on_char ':' e with
+                   | [i; r] -> edit_record file (zi 0) (zi 1) (z_of_string i) (bytes_of_tok r)
+                   | _ -> failwith ("bad edit " ^ e)) (bytes_of_tok a.(2)) (split_on ';' a.(3)) in
+               tok_of_bytes file
   | "legacy_ok" -> tok_of_bool (spec_legacy_ok (zi 0) (zi 1) (zi 2))
   | "hdr_names" -> names_tok (spec_hdr_layout (minor 0))
   | "dec_hdr" -> dec_out (spec_dec_header (minor 0) (bytes_of_tok a.(1)))
